@@ -442,6 +442,21 @@ namespace hs
         }
         stats().hit("sut." + sut);
         auto& c = S.o->caps;
+        if (c.kind == K_TEMP)
+        {
+            // the constructor obtained the first block: the newest acquisition of its owner
+            S.t_model = false;
+            S.t_size  = 1;
+            S.t_cached = S.t_block = 0;
+            auto& ev = heap.events();
+            for (std::size_t k = ev.size(); k-- > 0;)
+                if (ev[k].acquire && ev[k].owner == S.o->owner)
+                {
+                    S.t_block = ev[k].off;
+                    S.t_model = true;
+                    break;
+                }
+        }
         if (c.iter)
         {
             std::size_t sum = 0;
@@ -749,6 +764,9 @@ namespace hs
                         "the upstream call of this request failed, yet next_capacity() went from %zu to %zu", next0,
                         S.o->reading(1));
             S.failure_seen   = true;
+            if (c.kind == K_TEMP && (calls != (fired ? 1u : 0u) || !f.is_sim))
+                S.t_model = false; // the stack grows first and judges the size then (bad_allocation_size): it may
+                                   // have moved to a fresh or cached block the model cannot see
             S.last_end_valid = false; // a failed request may have moved the stack to a fresh block
             for (auto& m : S.markers)
                 m.tape_valid = false;
@@ -795,6 +813,30 @@ namespace hs
         }
         shadow_.fill(a);
         ++S.successes;
+        if (c.kind == K_TEMP && S.t_model)
+        {
+            auto blk = heap.find(p);
+            if (!blk)
+                S.t_model = false;
+            else if (blk->off != S.t_block)
+            {
+                // the stack moved on to another block: a fresh one (one upstream request) or a cached one
+                S.t_block = blk->off;
+                ++S.t_size;
+                if (calls == 0)
+                {
+                    if (S.t_cached == 0)
+                        violate("C05,C06", "temp_block_model", "the temporary stack moved to another block without "
+                                                               "an upstream request although it caches none");
+                    --S.t_cached;
+                    stats().hit("reach.temp_grew_from_cache");
+                }
+                else if (S.t_cached)
+                    violate("C05", "cache_not_reused", "the temporary stack caches %zu block(s) but requested a "
+                                                       "new one upstream",
+                            S.t_cached);
+            }
+        }
         if (r.fam == TRAITS && c.leak_tracked)
             S.leak_net += (long long)usable;
 
@@ -1070,6 +1112,8 @@ namespace hs
         m.water     = shadow_.last_id();
         m.attempts  = S->attempts;
         m.successes = S->successes;
+        m.t_size    = S->t_size;
+        m.t_block   = S->t_block;
         for (auto& o : S->markers)
             m.outer_len.push_back(o.tape.size());
         if (!S->markers.empty() && S->o->caps.kind != K_TEMP) // (scopes of a temporary stack have no public markers)
@@ -1119,12 +1163,41 @@ namespace hs
         nontrivial_release_ = true;
         S->last_end_valid = false;
         // (a temporary_allocator whose shrink_to_fit() was requested purges the cache when its scope ends)
+        if (S->o->caps.kind == K_TEMP && S->t_model)
+        {
+            // scopes end innermost first; each gives its blocks to the cache, a flagged one then empties the cache
+            std::size_t expected = 0, size = S->t_size, cached = S->t_cached;
+            bool        flagged  = false;
+            for (std::size_t k = S->markers.size(); k-- > mi;)
+            {
+                cached += size - S->markers[k].t_size;
+                size = S->markers[k].t_size;
+                if (S->markers[k].t_flag)
+                {
+                    expected += cached;
+                    cached  = 0;
+                    flagged = true;
+                }
+            }
+            if (rel != expected)
+                violate("C05,C06", flagged ? "scope_shrink_wrong" : "unwind_released_upstream",
+                        "ending the scopes of a temporary stack returned %u block(s) upstream, expected %zu "
+                        "(%s shrink_to_fit() requested; %zu block(s) in use before, %zu at the scope's start, %zu "
+                        "cached before)",
+                        rel, expected, flagged ? "with" : "no", S->t_size, size, S->t_cached);
+            if (flagged)
+                stats().hit(expected ? "reach.temp_scope_shrink_released" : "reach.temp_scope_shrink_nothing");
+            S->t_size   = size;
+            S->t_cached = cached;
+            S->t_block  = M.t_block;
+        }
         if (rel && S->o->caps.kind != K_TEMP)
             violate("C06,C05", "unwind_released_upstream", "unwind returned %u block(s) upstream instead of "
                                                            "caching them",
                     rel);
         S->o->truncate_markers(M.idx + 1);
         S->markers.resize(mi + 1);
+        S->markers[mi].t_flag = false; // a fresh scope takes the place of the ended one
         // "less" is defined by allocations since the marker with no unwind between: the counts restart here
         S->attempts  = M.attempts;
         S->successes = M.successes;
@@ -1182,6 +1255,17 @@ namespace hs
         for (auto& m : S->markers)
             m.tape_valid = false;
         S->shrunk = true;
+        if (S->o->caps.kind == K_TEMP)
+        {
+            if (rel)
+                violate("C05", "scope_shrink_wrong", "temporary_allocator::shrink_to_fit() released %u block(s) at "
+                                                     "once; it takes effect when the scope ends",
+                        rel);
+            if (S->markers.empty())
+                S->t_base_flag = true;
+            else
+                S->markers.back().t_flag = true;
+        }
         hash_.add(0x72);
         if (S->o->caps.kind == K_ARENA && S->o->reading(7) != 0)
             violate("C05", "cache_not_purged", "cache_size() is %zu after shrink_to_fit", S->o->reading(7));
